@@ -458,7 +458,8 @@ func sliceSeq(f *ssa.Function, v ssa.Value, isRecv, isArg func(ssa.Value) bool, 
 
 // ruleLevelSlots: a struct of per-level slots (LevelHook, LevelSampler): in method `meth`, every arm
 // `case C:` nil-checks and invokes the slot named after C, forwarding the parameters.
-func ruleLevelSlots(r *Run, p *Prog, rule, tname, meth, suffix string, levelParam int) {
+func ruleLevelSlots(r *Run, p *Prog, rule, tname, meth, suffix string, levelParam int, opts ...string) {
+	wantResult := len(opts) > 0 && opts[0] == "result"
 	f := p.Method("", tname, meth)
 	if !r.Anchor(f != nil, rule, tname+"."+meth) {
 		return
@@ -507,6 +508,23 @@ func ruleLevelSlots(r *Run, p *Prog, rule, tname, meth, suffix string, levelPara
 			}
 		}
 		cons := fmt.Sprintf("%s/path#%d", FnName(f), i)
+		if wantResult {
+			// a consulted slot's answer is the answer; without a slot the level is admitted
+			okRes := false
+			if ret, isRet := pa.Exit.(*ssa.Return); isRet && len(ret.Results) == 1 {
+				res := pa.Resolve(ret.Results[0])
+				if len(called) == 1 {
+					if c, isC := res.(*ssa.Call); isC && c.Call.IsInvoke() {
+						if fv, _ := loadedField(c.Call.Value); fv != nil && fv.Name() == called[0] {
+							okRes = true
+						}
+					}
+				} else if b, isB := constBool(res); isB && b && len(called) == 0 {
+					okRes = true
+				}
+			}
+			r.Ob(rule, cons+"/result", p.Pos(pa.Exit.Pos()), okRes, true, tern(okRes, "returns the consulted slot's answer, or true when no slot applies", "the result is not the consulted sampler's answer / a level without a sampler is not admitted"))
+		}
 		if eq == nil {
 			// level without an arm: nothing may be called
 			ok := len(called) == 0
